@@ -217,6 +217,22 @@ ADDENDA2 = {
     'C20': 'Witness cells w27-w33 (const rvalues are owned, const proxies alias, char arrays take the array overload).',
 }
 
+ADDENDA3 = {
+    'C01': 'R01.11 a value-taking option swallows a following token only when it is dash-less; R01.8 accepts every equivalent comparison form of the accounting guard.',
+    'C03': 'R03.3 liveness: no feasible path through check() leaves an ungiven option with a declared default untouched.',
+    'C04': 'R04.1 also requires literal format strings with matching arity on the parse path; R01.11 re-evaluated.',
+    'C05': 'R05.7 value overloads of operator<< take the item by reference; R05.4 the threshold object is not thread_local.',
+    'C07': 'R07.6 forwarding-reference parameters are never std::move()d.',
+    'C08': 'R08.4 the chaining members return the same formatter by reference.',
+    'C10': 'R05.4 (threshold is process-wide) re-evaluated.',
+    'C12': 'R12.5 covers operator[] (signed index, delegation to get() or the same normalisation).',
+    'C13': 'R13.4 the letter walk is on every path through check_parser_consistency().',
+    'C15': 'R15.5(d) a word is put on the current line only under a comparison implying it fits or cannot fit on any line (integer half-space implication); R15.4 format_default() yields a hint for every declared default.',
+    'C17': 'R17.4 decides find/rfind(p, k) == 0 for k other than 0.',
+    'C19': 'R19.2 the dlopen mode is a constant with RTLD_NOW and without RTLD_NODELETE / RTLD_NOLOAD.',
+    'C20': 'R20.1 every carrier of the running index is as wide as std::size_t; witness cells w34-w37 (const iterator dereference aliases).',
+}
+
 TECH = {
     "C08": "taint-style subject analysis of searches + regex-literal language equality + must-facts on the arity guards + abstract interpretation of the text-assembling loop over symbolic positions",
     "C09": "lock-scope must-dataflow over the CFG + storage/linkage rules for the mutex + acquire-loop typestate check for hand-written lockables + who-may-touch call-graph rule",
@@ -228,6 +244,8 @@ def main():
     for k, v in ADDENDA.items():
         CLAIMS[k]["text"] = CLAIMS[k]["text"].rstrip() + " " + v
     for k, v in ADDENDA2.items():
+        CLAIMS[k]["text"] = CLAIMS[k]["text"].rstrip() + " " + v
+    for k, v in ADDENDA3.items():
         CLAIMS[k]["text"] = CLAIMS[k]["text"].rstrip() + " " + v
     for k, v in TECH.items():
         CLAIMS[k]["technique"] = v
